@@ -23,6 +23,8 @@ def rule_r7(m: Model, r: Report) -> None:
                  "registered with response_code=<member> (parse_dynamic is a total map); the code values equal the ISO 14229-1 table", floor=60)
     from sa.uds_rules import iso_tables
     iso_tables(m, r, "R7", "UDSErrorCodes")
+    from sa.uds_rules import iso_subfunction_tables
+    iso_subfunction_tables(m, r, "R7")
     base = m.require_class(f"{EXC}.UnexpectedNegativeResponse")
     codes = m.enum_members(m.require_class(f"{CONST}.UDSErrorCodes"))
     if not codes:
